@@ -38,6 +38,10 @@ class World:
         class Up:
             def data_received(self, data):
                 world.host_up.append(bytes(data))
+                if getattr(world, "raising", False) and len(data) > 3 and data[3] % 3 == 0:
+                    # an upper layer with a bug for this particular frame: it was handed the frame (once), what becomes of its
+                    # exception is not the link's business
+                    raise RuntimeError("the upper layer raised")
                 # an upper layer that answers what it receives: a new send issued from inside the up-call, or by whatever the
                 # up-call woke (it runs in the next loop iteration, next to the sender task the same read completed)
                 if world.reactive and world.rng.random() < world.reactive:
@@ -240,6 +244,9 @@ def scenario(rng, window, plan, nh, nn, extra, focus="mix"):
     """plan: fault letters applied to the first wire frames (alternating pick of the non-empty channel,
     host->NCP first); extra: random tail of labels"""
     w = World(window, rng, reactive=0.6 if focus == "react" else 0.0)
+    w.raising = focus == "raise"
+    if w.raising:
+        w.loop.set_exception_handler(lambda loop, context: None)   # (asyncio would only log it)
     try:
         if focus == "stale":
             # the host's DATA frame needs a retransmission; by then the host has accepted (and acknowledged) so many NCP frames that
@@ -306,7 +313,7 @@ def scenario(rng, window, plan, nh, nn, extra, focus="mix"):
                 w.ncp_timeout()
             else:
                 d = "h2n" if (w.h2n and (not w.n2h or rng.random() < 0.5)) else "n2h"
-                w.deliver(d, rng.choice("vvvvvvxcdsll" if focus == "late" else "vvvvjjjjxcs" if focus == "react" else "vvvvvvxcdsrr"))
+                w.deliver(d, rng.choice("vvvvvvxcdsll" if focus == "late" else "vvvvjjjjxcs" if focus == "react" else "vvvvvvvvs" if focus == "raise" else "vvvvvvxcdsrr"))
         w.quiesce()
         failed_link = w.p._ncp_state != w.ash.NcpState.CONNECTED
         return w, oracle(w), failed_link
@@ -335,6 +342,9 @@ def cases(ctx):
     # an upper layer that sends in reaction to what it receives, and reads that carry two frames (an ACK and a DATA frame together)
     for _ in range(ctx.n(600, 6000)):
         cs.append((rng.choice([1, 2, 3]), "", rng.randint(2, 4), rng.randint(1, 3), rng.randint(20, 80), "react"))
+    # an upper layer that raises for some of the frames it is handed (no line faults needed): each frame still arrives once
+    for _ in range(ctx.n(60, 600)):
+        cs.append((rng.choice([1, 2, 3]), "", rng.randint(0, 2), rng.randint(2, 4), rng.randint(10, 60), "raise"))
     # a retransmission long after the first transmission: the acknowledgement number must be the current one
     for window in (1, 2, 3):
         for k in range(ctx.n(4, 12)):
